@@ -34,6 +34,7 @@ func GetConf(pType, workPath string, args, addRead, addWrite []string,
 	if allowProc {
 		allow = append(allow, defaultProcSyscalls...)
 	}
+	verifRaw(allow, trace)
 	allow, trace = cleanTrace(allow, trace)
 
 	return args, allow, trace, &filehandler.Handler{
